@@ -715,11 +715,33 @@ def run_level(line, debug):
         log_level(False)
 
 
+def run_plain(line, debug):
+    """parsing and scanning (not requests) at a log level: the plain component's line behind a `level` prefix"""
+    import comp_parsers
+    base = line[len('level'):]
+    fn = {'ubx': comp_parsers.real_ubx, 'nmea': comp_parsers.real_nmea, 'scan': real_scan}[base.split('|')[0].replace('scanseq', 'scan')]
+    log_level(debug)
+    try:
+        return fn(base)
+    except Exception as e:
+        return 'EXC:' + exc_name(e)
+    finally:
+        log_level(False)
+
+
+def is_plain(line):
+    return line.startswith(('levelubx|', 'levelnmea|', 'levelscan|', 'levelscanseq|'))
+
+
 def real_level(line):
+    if is_plain(line):
+        return run_plain(line, True)
     return run_level(line, True)[0]
 
 
 def model_line_level(line):
+    if is_plain(line):
+        return line[len('level'):]
     p = line.split('|')
     kind, name, h, edits, retries, delay, txs, rxs = p[1:9]
     out, st = run_level(line, False)
@@ -731,6 +753,10 @@ def model_line_level(line):
 
 
 def oracles_level(line, real_out):
+    if is_plain(line):
+        off = run_plain(line, False)
+        return [{'prop': 'C19', 'ok': off == real_out, 'expected': off[:300], 'observed': real_out[:300],
+                 'what': 'results and exceptions of parsing are identical whether logging is disabled or set to DEBUG'}], []
     off = run_level(line, False)[0]
     return [{'prop': 'C19', 'ok': off == real_out, 'expected': off[:300], 'observed': real_out[:300],
              'what': 'results, transmissions and exceptions of requests are identical whether logging is disabled or set to DEBUG'}], []
@@ -738,6 +764,14 @@ def oracles_level(line, real_out):
 
 def gen_level(rng, n, profile):
     from comp_codec import CLASSES, payload_for, wellformed
+    import comp_parsers
+    # parsing at DEBUG: with and without a filter (a parser that was never given one), every kind of stream
+    for ln in comp_parsers.gen_ubx(rng, max(30, n // 2), 'mixed'):
+        yield 'level' + (ln if rng.random() < 0.6 else 'ubx|' + ';'.join(o for o in ln.split('|', 1)[1].split(';') if o[0] not in 'FS'))
+    for ln in comp_parsers.gen_nmea(rng, max(10, n // 6), 'chunks'):
+        yield 'level' + ln
+    for ln in gen_scan(rng, max(20, n // 4), 'scan'):
+        yield 'level' + ln
     names = [c for c in CLASSES if c not in ('UbxAckAck', 'UbxAckNak', 'UbxMgaAckData0')]
     for k in range(n):
         name = names[k % len(names)] if k < 2 * len(names) else rng.choice(names)
@@ -787,8 +821,12 @@ def real_tty(line):
             exact = written == [data]
             return f'{"true" if ok else "false"} wrote={"exact" if exact else "other"}'
         if p[1] == 'recover':
-            s.baudrate = int(p[2])
+            import ubxlib.server_tty as tty
+            s = tty.GnssUBlox('/dev/gnss0', int(p[2]))        # opened at the constructor's rate …
+            port = s.serial_port
             s.setup()
+            if p[3] != p[2]:
+                s.set_baudrate(int(p[3]))                      # … and switched to another one later
             port.log.clear()
             s._recover()
             bauds = [str(e[1]) for e in port.log if e[0] == 'baudrate']
@@ -808,8 +846,8 @@ def oracles_tty(line, real_out):
         return [{'prop': 'C12', 'ok': real_out == exp, 'expected': exp, 'observed': real_out,
                  'what': 'the serial back end writes exactly the request bytes and reports success only if all of them were written'}], []
     if p[1] == 'recover':
-        ok = real_out.startswith(f'open=true baud={p[2]} ')
-        return [{'prop': 'C12', 'ok': ok, 'expected': f'open=true baud={p[2]}', 'observed': real_out,
+        ok = real_out.startswith(f'open=true baud={p[3]} ')
+        return [{'prop': 'C12', 'ok': ok, 'expected': f'open=true baud={p[3]}', 'observed': real_out,
                  'what': 'link recovery leaves the port open at the previous bit rate'}], []
     return [], []
 
@@ -819,14 +857,18 @@ def gen_tty(rng, n, profile):
         data = rand_payload(rng, ln)
         for w in ['-', '0', str(max(0, ln - 1)), str(ln), str(ln + 1)]:
             yield f'tty|transmit|{w}|{data.hex()}'
-    for baud in [9600, 19200, 38400, 57600, 115200, 230400, 460800, 921600]:
-        yield f'tty|recover|{baud}'
+    rates = [9600, 19200, 38400, 57600, 115200, 230400, 460800, 921600]
+    for ctor in rates:
+        for cur in rates:
+            yield f'tty|recover|{ctor}|{cur}'
     for _ in range(n):
         data = frame(rng.randrange(256), rng.randrange(256), rand_payload(rng, rng.randrange(0, 60)))
         yield f'tty|transmit|{rng.choice(["-", "-", str(rng.randrange(0, len(data) + 2))])}|{data.hex()}'
 
 
 def real_scan(line):
+    if line.startswith('scanseq'):
+        return real_scanseq(line)
     _, interval, script = line.split('|')
     evs = []
     for e in (script.split(',') if script else []):
@@ -847,7 +889,51 @@ def real_scan(line):
         return 'EXC:' + exc_name(e)
 
 
+def real_scanseq(line):
+    """several scans on ONE server object, after its request-loop parser was left in the middle of a frame"""
+    _, dirty, scans = line.split('|')
+    out = []
+    try:
+        s = tty_server()
+        s.setup()
+        if dirty:
+            s.parser.process(bytes.fromhex(dirty))
+        CLK.ticks = 0
+        for sc in scans.split('/'):
+            interval, script = sc.split('~')
+            evs = []
+            for e in (script.split(',') if script else []):
+                d, b = e.split(':')
+                evs.append((int(d), None if b == '-' else int(b)))
+            s.serial_port.script = evs
+            s.serial_port.j = 0
+            t0 = CLK.ticks
+            r = s.scan(int(interval) / 1024.0)
+            out.append(f'{"true" if r else "false"},t={CLK.ticks - t0},reads={s.serial_port.j}')
+    except realenv.CaseTimeout:
+        raise
+    except Exception as e:
+        out.append('EXC:' + exc_name(e))
+    return ' '.join(out)
+
+
+def oracles_scanseq(line, real_out):
+    _, dirty, scans = line.split('|')
+    recs = []
+    outs = real_out.split(' ')
+    for k, sc in enumerate(scans.split('/')):
+        interval, script = sc.split('~')
+        one = outs[k].replace(',', ' ') if k < len(outs) else 'missing'
+        r, _ = oracles_scan(f'scan|{interval}|{script}', one)
+        for x in r:
+            x['what'] += f' (scan {k + 1} of a sequence on one server object)'
+        recs += r
+    return recs, []
+
+
 def oracles_scan(line, real_out):
+    if line.startswith('scanseq'):
+        return oracles_scanseq(line, real_out)
     _, interval, script = line.split('|')
     interval = int(interval)
     evs = []
@@ -876,6 +962,17 @@ def oracles_scan(line, real_out):
 
 
 def gen_scan(rng, n, profile):
+    singles = list(gen_scan1(rng, n, profile))
+    for ln in singles:
+        yield ln
+    # sequences of scans on one object; the request-loop parser may have been left inside a frame
+    for _ in range(max(20, n // 4)):
+        picks = [rng.choice(singles).split('|', 1)[1].replace('|', '~') for _ in range(rng.randrange(2, 4))]
+        dirty = rng.choice([b'', b'\xb5', b'\xb5\x62\x05\x01\xe8\x03', frame(5, 1, [6, 8])[:-2], b'$GP*1'])
+        yield f'scanseq|{dirty.hex()}|' + '/'.join(picks)
+
+
+def gen_scan1(rng, n, profile):
     nm = b'$GP*17\r\n'
     for _ in range(n):
         stream = bytearray()
@@ -1011,6 +1108,10 @@ def chunk_bytes(c):
             lines.append('$GPRMC,1*2C')
         elif l == 'D':
             lines.append('[' * 100000)
+        elif l == 'B':                       # a number json.loads refuses to convert (more than 4300 digits)
+            lines.append('{"class":"TPV","alt":' + '9' * 5000 + '}')
+        elif l == 'b':
+            lines.append('1' * 4301)
         else:
             lines.append(json.dumps(untok(l.split(' '))))
     return '\n'.join(lines).encode()
@@ -1054,7 +1155,7 @@ def oracles_gpsd(line, real_out):
     for c in chunks.split('/'):
         if c != 'U':
             for l in (c.split(';') if c else []):
-                if l in ('X', 'D'):
+                if l in ('X', 'D', 'B', 'b'):
                     continue
                 v = untok(l.split(' '))
                 if not wellformed_json(v):
@@ -1085,9 +1186,11 @@ def rand_json(rng, depth=0):
 
 
 def gen_gpsd(rng, n, profile):
-    devs = ['/dev/a', '/dev/b', '/dev/gnss0', '/dev/ttyS3']
+    devs = ['/dev/a', '/dev/b', '/dev/gnss0', '/dev/ttyS3', '/dev/ttyACM0', '/dev/ttyACM10', '/dev/ab']
     for _ in range(n):
-        want = rng.choice([None, None, '/dev/b', '/dev/zz', '/dev/a'])
+        # requested names include proper prefixes, substrings and concatenations of listed ones
+        want = rng.choice([None, None, '/dev/b', '/dev/zz', '/dev/a', '/dev/ttyACM1', '/dev/gnss', 'dev', '/dev/ttyACM0', 'a', '/dev/a/dev/b',
+                           '/dev/gnss0 ', '0', '/'])
         chunks = []
         for _ in range(rng.randrange(1, 5)):
             if rng.random() < .1:
@@ -1105,6 +1208,9 @@ def gen_gpsd(rng, n, profile):
                     continue
                 elif k < .6:
                     toks.append('D')
+                    continue
+                elif k < .64:
+                    toks.append(rng.choice('Bb'))
                     continue
                 else:
                     v = rand_json(rng)
